@@ -167,7 +167,7 @@ def inst_try_add_arms(cx, iid):
 
 def inst_receive_walk(cx, iid):
     R = cx.R
-    with cx.instance(iid, "T2/T7", "receive walks ids upward from base_id to end_id; each delivery clears the data flag and moves the channel base past the packet", floor=3) as inst:
+    with cx.instance(iid, "T2/T7", "receive walks ids upward from base_id to end_id; each delivery clears the data flag and moves the channel base past the packet", floor=5) as inst:
         b = R.body(PR + "receive")
         Ls = b.loops()
         if len(Ls) != 2:
